@@ -633,6 +633,22 @@ impl Monitors {
             && sim.workers.values().all(|w| !w.stopped)
         {
             self.count("rest_points", 1);
+            // S4: every RetractTasks message has been answered by now, so no task can still be
+            // "being retracted" from a connected worker - it would wait there forever
+            for t in &core.tasks {
+                if let TaskStateSnapshot::Retracting { worker_id } = &t.state {
+                    if core.workers.iter().any(|w| w.id == *worker_id) {
+                        viol(
+                            out,
+                            step,
+                            "C02",
+                            "S4-retraction-unresolved-at-rest",
+                            format!("at rest task {:?} is still being retracted from worker {worker_id} although no message is in flight", conv::tid(t.id)),
+                        );
+                        break;
+                    }
+                }
+            }
             let vnow = sim.vnow_s();
             let idle: Vec<&tako::verif::WorkerSnapshot> = core
                 .workers
